@@ -30,6 +30,7 @@ type Obligation struct {
 	Variant   string
 	Group     string // reach guards of one function: any member satisfiable suffices
 	HideSpec  []string // lemma `uses -spec.f`
+	Retried   bool     // undecided at the first attempt, tried again alone with a longer limit
 	Reveal    []string // prelude pseudo-symbols whose `;@ needs` axioms are shipped with this VC (lemma `uses spec.X`)
 	// result
 	Status  string // unsat sat unknown timeout error
